@@ -37,7 +37,7 @@ def units():
 
 
 def bounds(tier):
-    return dict(programs=sorted(n for n in catalog.programs(tier) if "map_blocks" in n), sizes="unbounded")
+    return dict(programs=sorted(n for n in catalog.programs(tier) if "map_blocks(f_" in n), sizes="unbounded")
 
 
 def _body(E, w, prog):
@@ -54,4 +54,4 @@ def _body(E, w, prog):
 
 def instances(tier):
     return catalog.make_instances(tier, "C20", _body, "map_blocks + ChunksFreeze + grid-preservation gates through the optimizer",
-                                  select=lambda name: "map_blocks" in name)
+                                  select=lambda name: "map_blocks(f_" in name)
